@@ -53,9 +53,21 @@ def st_pair(draw, cols, universe):
     free = [t for t in universe if t not in cols]
     fam = draw(
         st.sampled_from(
-            ["slice", "slice", "bigslice", "sort", "sort", "sel", "sel", "projproj", "projcalc", "noop", "trivsel", "mixed"]
+            ["slice", "slice", "bigslice", "sort", "sort", "sel", "sel", "projproj", "projcalc", "calcchain", "calcchain", "noop", "trivsel", "mixed"]
         )
     )
+    if fam == "calcchain" and cols and len(free) >= 2:
+        # a run of calculations, later ones possibly reading earlier ones, then a projection keeping some of them
+        n = draw(st.integers(2, min(3, len(free))))
+        tags = draw(st.permutations(free))[:n]
+        have = list(cols)
+        ups = []
+        for t in tags:
+            ups.append(("calc", t, draw(st_expr(have, 1, need_ref=True))))
+            have.append(t)
+        order = draw(st.permutations(have))
+        keep = tuple(order[: draw(st.integers(0, len(order)))])
+        return (("seq", tuple(ups)), ("proj", keep))
     if fam == "slice":
         return (("slice",) + draw(st_slice(7, 7)), ("slice",) + draw(st_slice(7, 7)))
     if fam == "bigslice":
@@ -179,13 +191,27 @@ def valid_on(spec, cols):
 def run_case(case, stats):
     universe, leaves, up, down = case
     cols0 = frozenset(leaves[0][1])
-    up = norm(up, cols0)
-    if not valid_on(up, cols0):
-        stats.c["skipped:up-invalid"] += 1
-        return
-    prog_up = with_src(up, ("leaf", 0))
     from vf.core.prog import schema
 
+    if up[0] == "seq":
+        # several upstream operations; the merge / elision under test is between the last of them (and whatever
+        # the library elides further up) and `down`
+        prog_up = ("leaf", 0)
+        for spec in up[1]:
+            if not valid_on(spec, schema(prog_up, leaves)):
+                stats.c["skipped:up-invalid"] += 1
+                return
+            prog_up = with_src(spec, prog_up)
+        cols0 = schema(prog_up[1], leaves)
+        up = up[1][-1]
+        seq_mode = True
+    else:
+        seq_mode = False
+        up = norm(up, cols0)
+        if not valid_on(up, cols0):
+            stats.c["skipped:up-invalid"] += 1
+            return
+        prog_up = with_src(up, ("leaf", 0))
     cols1 = schema(prog_up, leaves)
     down = norm(down, cols1)
     if not valid_on(down, cols1):
@@ -206,7 +232,7 @@ def run_case(case, stats):
     if simplified is not None:
         stats.c["simplify:merged"] += 1
         try:
-            one = with_src(decode_op(simplified), ("leaf", 0))
+            one = with_src(decode_op(simplified), prog_up[1] if seq_mode else ("leaf", 0))
             got = ev_list(one, leaves)
         except Undecodable as e:
             raise Violation("merge-undecodable", f"{e}; {ctx}")
@@ -224,7 +250,14 @@ def run_case(case, stats):
         from vf.core.prog import apply_node
 
         try:
-            r1 = apply_node(prog_up, [env.leafrels[0]], env)
+            if seq_mode:
+                from vf.core.prog import build_all
+
+                rels_ = {}
+                build_all(prog_up, env, rels_)
+                r1 = rels_[id(prog_up)]
+            else:
+                r1 = apply_node(prog_up, [env.leafrels[0]], env)
             r2 = apply_node(prog, [r1], env)
         except Exception as e:
             raise Violation("apply-raised", f"factory raised {type(e).__name__}: {e}; {ctx}", exc=e)
@@ -236,6 +269,8 @@ def run_case(case, stats):
             got_tree = ev_list(dec, leaves)
         except Undecodable as e:
             raise Violation("tree-undecodable", f"{e}; {ctx}")
+        except KeyError as e:
+            raise Violation("tree-illformed", f"the returned tree {r2} applies an operation to a relation lacking column {e}; {ctx}")
         if got_tree != expected:
             raise Violation(
                 "tree-changed-rows", f"tree {r2}: expected {show_rows(expected)} decoded tree gives {show_rows(got_tree)}; {ctx}"
@@ -249,7 +284,7 @@ def run_case(case, stats):
                 "exec-changed-rows", f"tree {r2}: expected {show_rows(expected)} executed {show_rows(got_exec)}; {ctx}"
             )
         stats.c[f"tree_nodes:{nodes}"] += 1
-        if nodes < 2:
+        if nodes < (len(case[2][1]) + 1 if seq_mode else 2):
             stats.mark_nontrivial(codec.digest(case), lambda: describe(case), cls=f"{pair}/nodes={nodes}")
     finally:
         env.close()
@@ -272,7 +307,8 @@ def _fmt_spec(spec):
 
 def describe(case):
     universe, leaves, up, down = case
-    return {"leaf": fmt_leaves(leaves), "up": up[0] + _fmt_spec(up), "down": down[0] + _fmt_spec(down)}
+    ups = up[1] if up[0] == "seq" else (up,)
+    return {"leaf": fmt_leaves(leaves), "up": " then ".join(u[0] + _fmt_spec(u) for u in ups), "down": down[0] + _fmt_spec(down)}
 
 
 # ---------------------------------------------------------------- exhaustive slice space
